@@ -32,6 +32,11 @@ theorem between_silent (c : Conn) (h : Between c) : Between { c with srvSilent :
   have nl : ¬ live ({ c with srvSilent := true } : Conn) := fun hl => by cases hl.2.2
   exact ⟨⟨⟨h.sess.ji.nbad, h.sess.ji.stop, fun hl => absurd hl nl⟩, h.sess.hello⟩, fun hl => absurd hl nl⟩
 
+/-- the transport breaks outside any command (a failed TLS handshake): the server is out of reach -/
+theorem between_gone (c : Conn) (e : Option Err) (h : Between c) : Between { c with srvGone := true, broken := e } := by
+  have nl : ¬ live ({ c with srvGone := true, broken := e } : Conn) := fun hl => by cases hl.2.1
+  exact ⟨⟨⟨h.sess.ji.nbad, h.sess.ji.stop, fun hl => absurd hl nl⟩, h.sess.hello⟩, fun hl => absurd hl nl⟩
+
 /-- the server drops the connection outside any command -/
 theorem between_drop (c : Conn) (h : Between c) : Between { c.ev .drop with srvGone := true } := by
   have nl : ¬ live ({ c.ev .drop with srvGone := true } : Conn) := fun hl => by cases hl.2.1
@@ -109,7 +114,7 @@ theorem between_startTLS (c : Conn) (h : Between c) : Between c.startTLS.1 := by
           · exact between_ehlo _ (between_ev _ _ h4 step_tlsOn)
           · exact between_drop _ h4
           · exact between_waitSilent _ (between_silent _ h4)
-          · exact between_ev _ _ h4 step_tlsFail
+          · exact between_gone _ _ (between_ev _ _ h4 step_tlsFail)
 
 theorem between_authLoop {σ} (a : Mech σ) (mech : Bytes) (fuel : Nat) (c : Conn) (st : σ)
     (r : Except Err (Nat × Bytes)) (h : Between c) : Between (authLoop a mech fuel c st r).1 := by
